@@ -20,6 +20,10 @@ if rc != 0:
     rc = subprocess.run(["git", "-C", "/repo", "apply", "--3way", patch], capture_output=True).returncode
     subprocess.run(["git", "-C", "/repo", "reset", "-q"])   # --3way stages the result; keep it in the working tree only
 if rc != 0:
+    # leave /repo as it was (a failed three-way merge writes conflict markers)
+    subprocess.run(["git", "-C", "/repo", "reset", "-q"])
+    subprocess.run(["git", "-C", "/repo", "checkout", "--", "."])
+    shutil.rmtree(bak, ignore_errors=True)
     print("patch does not apply"); sys.exit(2)
 res = {}
 try:
